@@ -156,8 +156,12 @@ struct Opts {
 }
 
 fn gen_fault(g: &mut Rng, transport: Transport, stalls_left: &mut u32, o: &Opts) -> Decision {
+    if o.grpc_edge {
+        // the `grpc-edge` lane: failures a gRPC client only sees in the response *headers*
+        return if g.bool() { Decision::GrpcStatus(*g.pick(&[8u32, 14]), GrpcForm::TrailersOnly) } else { Decision::Status(*g.pick(&[502u16, 503])) };
+    }
     loop {
-        let d = match g.below(if transport == Transport::Grpc && o.grpc_edge { 8 } else { 6 }) {
+        let d = match g.below(6) {
             0 | 1 => {
                 if transport == Transport::Grpc {
                     Decision::GrpcStatus(*g.pick(&[1u32, 2, 4, 8, 13, 14]), GrpcForm::Trailers)
@@ -168,9 +172,7 @@ fn gen_fault(g: &mut Rng, transport: Transport, stalls_left: &mut u32, o: &Opts)
             2 => Decision::Stall,
             3 => Decision::DropOnAccept,
             4 => Decision::DropBeforeBody,
-            5 => Decision::DropAfterRead,
-            6 => Decision::GrpcStatus(*g.pick(&[8u32, 14]), GrpcForm::TrailersOnly),
-            _ => Decision::Status(503),
+            _ => Decision::DropAfterRead,
         };
         if d == Decision::Stall {
             if *stalls_left == 0 {
@@ -185,12 +187,12 @@ fn gen_fault(g: &mut Rng, transport: Transport, stalls_left: &mut u32, o: &Opts)
 fn generate(seed: u64, case: u64, o: &Opts) -> Scenario {
     let mut g = Rng::stream(seed, &[12, 1, case]);
     // configuration dimensions walk systematically, the rest is drawn
-    let transport = Transport::ALL[(case % 3) as usize];
+    let transport = if o.grpc_edge { Transport::Grpc } else { Transport::ALL[(case % 3) as usize] };
     let gzip = case / 3 % 2 == 0;
     let subset = (case / 6 % 7 + 1) as u8;
     let configured: Vec<Signal> = Signal::ALL.into_iter().filter(|s| subset & s.bit() != 0).collect();
 
-    let flavour = g.below(8);
+    let flavour = if o.grpc_edge { 5 + g.below(3) } else { g.below(8) };
     let fault_free = flavour < 2;
     let mut dead = None;
     let mut late = None;
@@ -882,7 +884,7 @@ fn main() {
         std::process::exit(r.finish());
     }
 
-    let n = args.n(126, 2016);
+    let n = if opts.grpc_edge { args.n(42, 420) } else { args.n(126, 2016) };
     par_cases(&mut r, &args, n, |i, r| {
         let sc = generate(seed, i, &opts);
         run(r, &sc);
